@@ -318,6 +318,11 @@ pub fn prices_equal(a: &Prices<u128>, b: &Prices<u128>) -> bool {
 /// same account bytes): is the position liquidatable at these prices once the fee state is brought up to the
 /// chain time (by the program's own update_fees_state on a fork)? `None` if the SDK model cannot be built.
 pub fn sdk_liquidatable(w: &World, d: &Dep, mi: usize, position: &Pubkey, prices: &Prices<u128>, for_liquidation: bool) -> Option<bool> {
+    sdk_liquidatable_reason(w, d, mi, position, prices, for_liquidation).map(|r| r.is_some())
+}
+
+/// Like [`sdk_liquidatable`], returning the reason (`MinCollateral`, `NotPositive`, `MinCollateralForLeverage`).
+pub fn sdk_liquidatable_reason(w: &World, d: &Dep, mi: usize, position: &Pubkey, prices: &Prices<u128>, for_liquidation: bool) -> Option<Option<String>> {
     use gmsol_model::PositionExt;
     use gmsol_programs::gmsol_store::accounts::Position as SdkPosition;
     use gmsol_programs::model::PositionModel;
@@ -343,7 +348,7 @@ pub fn sdk_liquidatable(w: &World, d: &Dep, mi: usize, position: &Pubkey, prices
         use gmsol_model::PositionState;
         eprintln!("sdk_liquidatable: for_liq={for_liquidation} result={r:?} size_usd={} size_tokens={} collateral={} prices={prices:?} pnl={:?} collateral_value={:?}", pm.size_in_usd(), pm.size_in_tokens(), pm.collateral_amount(), pm.pnl_value(prices, pm.size_in_usd()), pm.collateral_value(prices));
     }
-    r.ok().map(|r| r.is_some())
+    r.ok().map(|r| r.map(|x| format!("{x:?}")))
 }
 
 /// pnl-to-pool factor (maximised, as the ADL check uses it) of one side, on the SDK's model of the market
